@@ -372,10 +372,10 @@ Proof.
     + intros. destruct k; [reflexivity|]. assert (res = Z.of_nat (S k)) by (apply K3; lia). lia.
 Qed.
 
-Lemma mk_batch_seq : forall lens s, map d_seq (mk_batch s lens) = seq s (length lens).
+Lemma mk_batch_seq addr : forall lens s, map d_seq (mk_batch s addr lens) = seq s (length lens).
 Proof. induction lens as [|l ls IH]; intros s; simpl; [reflexivity|]. now rewrite IH. Qed.
 
-Lemma mk_batch_length lens s : length (mk_batch s lens) = length lens.
+Lemma mk_batch_length addr lens s : length (mk_batch s addr lens) = length lens.
 Proof. rewrite <- (map_length d_seq), mk_batch_seq. apply seq_length. Qed.
 
 Lemma firstn_seq_le : forall k n s, (k <= n)%nat -> firstn k (seq s n) = seq s k.
@@ -387,29 +387,33 @@ Qed.
 (* The try_send2 rule of the property: a result n > 0 means exactly the first n
    datagrams of the batch were handed to the OS, in order. *)
 Definition try_send2_prefix (fx : bool) : Prop :=
-  forall s lens flags s' ev n,
-    udp_try_send2 fx s lens flags = (s', ev) ->
+  forall s lens flags addr s' ev n,
+    udp_try_send2 fx s lens flags addr = (s', ev) ->
     In (ETry2 (next_seq s) (length lens) n) ev -> 0 < n ->
     handed ev = seq (next_seq s) (Z.to_nat n).
 
 Lemma try_send2_prefix_when fx :
-  forall s lens flags s' ev n,
+  forall s lens flags addr s' ev n,
     (fx = true \/ (length lens <= BATCH)%nat) ->
-    udp_try_send2 fx s lens flags = (s', ev) ->
+    udp_try_send2 fx s lens flags addr = (s', ev) ->
     In (ETry2 (next_seq s) (length lens) n) ev -> 0 < n ->
     handed ev = seq (next_seq s) (Z.to_nat n).
 Proof.
-  intros s lens flags s' ev n Hc H Hin Hn. unfold udp_try_send2 in H.
+  intros s lens flags addr s' ev n Hc H Hin Hn. unfold udp_try_send2 in H.
   destruct (length lens <? 1)%nat.
   { inversion H; subst. destruct Hin as [E|[]]. inversion E. unfold UV_EINVAL in *. lia. }
   destruct (negb (flags =? 0)).
   { inversion H; subst. destruct Hin as [E|[]]. inversion E. unfold UV_EINVAL in *. lia. }
   destruct (0 <? sq_count (bump_seq (length lens) s)).
   { inversion H; subst. destruct Hin as [E|[]]. inversion E. unfold UV_EAGAIN in *. lia. }
-  destruct (sendmsgv fx (mk_batch (next_seq s) lens) (os (bump_seq (length lens) s)))
+  destruct (sendmsgv fx (mk_batch (next_seq s) addr lens) (os (bump_seq (length lens) s)))
     as [[r ev0] o'] eqn:E.
   inversion H; subst s' ev. clear H.
   destruct (sendmsgv_basic _ _ _ _ _ _ E) as (Hs & _ & _).
+  destruct Hin as [Hin|Hin]; [discriminate Hin|].
+  change (handed (EName (map (fun d => (d_seq d, d_dst d)) (mk_batch (next_seq s) addr lens))
+                    :: ev0 ++ [ETry2 (next_seq s) (length lens) r]))
+    with (handed (ev0 ++ [ETry2 (next_seq s) (length lens) r])).
   apply in_app_or in Hin. destruct Hin as [Hin|[Hin|[]]].
   { rewrite forallb_forall in Hs. apply Hs in Hin. discriminate. }
   inversion Hin; subst r.
@@ -423,17 +427,17 @@ Qed.
 
 (* with the repaired index arithmetic the rule holds for every batch *)
 Lemma try_send2_prefix_fixed : try_send2_prefix true.
-Proof. intros s lens flags s' ev n. apply try_send2_prefix_when. now left. Qed.
+Proof. intros s lens flags addr s' ev n. apply try_send2_prefix_when. now left. Qed.
 
 (* with the arithmetic as written it holds for batches of at most 20 *)
 Lemma try_send2_prefix_small fx :
-  forall s lens flags s' ev n,
+  forall s lens flags addr s' ev n,
     (length lens <= 20)%nat ->
-    udp_try_send2 fx s lens flags = (s', ev) ->
+    udp_try_send2 fx s lens flags addr = (s', ev) ->
     In (ETry2 (next_seq s) (length lens) n) ev -> 0 < n ->
     handed ev = seq (next_seq s) (Z.to_nat n).
 Proof.
-  intros s lens flags s' ev n H. apply try_send2_prefix_when. right. now rewrite BATCH_eq.
+  intros s lens flags addr s' ev n H. apply try_send2_prefix_when. right. now rewrite BATCH_eq.
 Qed.
 
 (* ... and fails for 50 datagrams all of which the kernel accepts *)
@@ -443,15 +447,15 @@ Definition witness_lens : list N := repeat 10%N 50.
 Lemma try_send2_prefix_false : ~ try_send2_prefix false.
 Proof.
   intros H.
-  specialize (H witness_state witness_lens 0
-                (fst (udp_try_send2 false witness_state witness_lens 0))
-                (snd (udp_try_send2 false witness_state witness_lens 0)) 30).
-  assert (E : handed (snd (udp_try_send2 false witness_state witness_lens 0)) =
+  specialize (H witness_state witness_lens 0 1%nat
+                (fst (udp_try_send2 false witness_state witness_lens 0 1%nat))
+                (snd (udp_try_send2 false witness_state witness_lens 0 1%nat)) 30).
+  assert (E : handed (snd (udp_try_send2 false witness_state witness_lens 0 1%nat)) =
               seq 0 20 ++ seq 40 10) by (vm_compute; reflexivity).
   rewrite E in H.
   assert (seq 0 20 ++ seq 40 10 = seq (next_seq witness_state) (Z.to_nat 30)) as C.
   { apply H.
-    - now destruct (udp_try_send2 false witness_state witness_lens 0).
+    - now destruct (udp_try_send2 false witness_state witness_lens 0 1%nat).
     - vm_compute. auto 60.
     - lia. }
   vm_compute in C. discriminate C.
@@ -658,9 +662,9 @@ Lemma sbytes_app a b : sbytes (a ++ b) = sbytes a + sbytes b.
 Proof. induction a as [|p a IH]; simpl; [reflexivity|]. rewrite IH. lia. Qed.
 
 (* uv_udp_send queues a request; the monitor sees ESend *)
-Lemma Inv_append s m len s' :
+Lemma Inv_append s m len addr s' :
   Inv s m ->
-  wq s' = wq s ++ [mkReq (next_id s) (mkD (next_seq s) len) 0] -> cq s' = cq s ->
+  wq s' = wq s ++ [mkReq (next_id s) (mkD (next_seq s) len addr) 0] -> cq s' = cq s ->
   sq_size s' = sq_size s + Z.of_N len -> sq_count s' = sq_count s + 1 ->
   next_id s' = S (next_id s) -> next_seq s' = (next_seq s + 1)%nat ->
   close_pending s' = close_pending s -> closing s' = closing s ->
@@ -668,7 +672,7 @@ Lemma Inv_append s m len s' :
                 (m_hand m) (m_errs m) (m_closed m)).
 Proof.
   intros [] Hw Hc Hsz Hct Hid Hsq Hcp Hcl.
-  assert (Hs : strips s' = strips s ++ [(next_id s, mkD (next_seq s) len)]).
+  assert (Hs : strips s' = strips s ++ [(next_id s, mkD (next_seq s) len addr)]).
   { unfold strips. rewrite Hw, Hc, app_assoc, map_app. reflexivity. }
   constructor; simpl; rewrite ?Hs, ?Hcp, ?Hcl; auto.
   - rewrite map_app, i_owed0. reflexivity.
@@ -1000,9 +1004,9 @@ Qed.
 Lemma check_before_send_cases s addr :
   check_before_send s addr = 0 \/ check_before_send s addr < 0.
 Proof.
-  unfold check_before_send, UV_EISCONN, UV_EDESTADDRREQ.
-  destruct (addr && connected s); [right; lia|].
-  destruct (negb addr && negb (connected s)); [right; lia|left; reflexivity].
+  unfold check_before_send, UV_EISCONN, UV_EDESTADDRREQ. cbv zeta.
+  destruct (_ && _); [right; lia|].
+  destruct (_ && _); [right; lia|left; reflexivity].
 Qed.
 
 Lemma udp_send_ok fx s m len addr : Inv s m -> okr m (udp_send fx s len addr).
@@ -1014,11 +1018,11 @@ Proof.
     split; [reflexivity|]. eapply Inv_state; [exact HI| | | | | | | |]; simpl; auto; lia.
   - set (s0 := bump_id (bump_seq 1 s)).
     set (s1 := set_active true
-                 (set_queues (wq s0 ++ [mkReq (next_id s) (mkD (next_seq s) len) 0]) (cq s0)
+                 (set_queues (wq s0 ++ [mkReq (next_id s) (mkD (next_seq s) len addr) 0]) (cq s0)
                              (sq_size s0 + Z.of_N len) (sq_count s0 + 1) s0)).
     set (m1 := mkMon (m_owed m ++ [(next_id s, next_seq s, Z.of_N len)]) (S (next_id s))
                      (m_hand m) (m_errs m) (m_closed m)).
-    assert (H1 : Inv s1 m1) by (apply (Inv_append s m len s1 HI); reflexivity).
+    assert (H1 : Inv s1 m1) by (apply (Inv_append s m len addr s1 HI); reflexivity).
     assert (St : mon_step m (ESend (next_id s) (next_seq s) (Z.of_N len) 0) = Some m1).
     { simpl. pose proof (i_next _ _ HI) as Hn. apply Nat.leb_le in Hn. now rewrite Hn. }
     destruct ((sq_count s0 =? 0) && negb (processing s1)).
@@ -1040,6 +1044,9 @@ Lemma mon_run_snoc_ignored m ev e m' :
   mon_run m ev = Some m' -> mon_step m' e = Some m' -> mon_run m (ev ++ [e]) = Some m'.
 Proof. intros H1 H2. rewrite mon_run_app, H1. simpl. now rewrite H2. Qed.
 
+Lemma mon_run_cons_name m l ev : mon_run m (EName l :: ev) = mon_run m ev.
+Proof. reflexivity. Qed.
+
 Lemma udp_try_send_ok s m len addr : Inv s m -> okr m (udp_try_send s len addr).
 Proof.
   intros HI. unfold udp_try_send.
@@ -1048,7 +1055,7 @@ Proof.
   destruct (check_before_send s addr <? 0); [exists m; simpl; auto|].
   destruct (negb (sq_count (bump_seq 1 s) =? 0)) eqn:Eq; [exists m; simpl; auto|].
   apply negb_false_iff, Z.eqb_eq in Eq.
-  destruct (sendmsg1 (mkD (next_seq s) len) (os (bump_seq 1 s))) as [[r ev] o'] eqn:E.
+  destruct (sendmsg1 (mkD (next_seq s) len addr) (os (bump_seq 1 s))) as [[r ev] o'] eqn:E.
   destruct (sendmsg1_spec _ _ _ _ _ E) as (Hsys & _ & _ & Hc).
   assert (Hl : StronglySorted lt (handed ev) /\
                Forall (fun x => (next_seq s <= x < next_seq s + 1)%nat) (handed ev)).
@@ -1061,12 +1068,12 @@ Proof.
     intros. pose proof (i_hb _ _ HI). lia. }
   pose proof (mon_run_sys ev m _ Hsys Ha) as Hr.
   eexists. simpl snd. split.
-  - apply mon_run_snoc_ignored; [exact Hr|reflexivity].
+  - rewrite mon_run_cons_name. apply mon_run_snoc_ignored; [exact Hr|reflexivity].
   - simpl fst. eapply (Inv_ext_fresh s); eauto; simpl; auto; try lia.
     apply (Inv_empty s m HI). exact Eq.
 Qed.
 
-Lemma udp_try_send2_ok fx s m lens flags : Inv s m -> okr m (udp_try_send2 fx s lens flags).
+Lemma udp_try_send2_ok fx s m lens flags addr : Inv s m -> okr m (udp_try_send2 fx s lens flags addr).
 Proof.
   intros HI. unfold udp_try_send2.
   assert (H0 : Inv (bump_seq (length lens) s) m).
@@ -1077,11 +1084,11 @@ Proof.
   apply Z.ltb_ge in Eq.
   assert (Hz : sq_count s = 0).
   { simpl in Eq. pose proof (i_count _ _ HI). lia. }
-  destruct (sendmsgv fx (mk_batch (next_seq s) lens) (os (bump_seq (length lens) s)))
+  destruct (sendmsgv fx (mk_batch (next_seq s) addr lens) (os (bump_seq (length lens) s)))
     as [[r ev] o'] eqn:E.
   destruct (sendmsgv_basic _ _ _ _ _ _ E) as (Hsys & _ & _).
-  destruct (sendmsgv_range fx _ _ _ _ _ (next_seq s) (eq_trans (mk_batch_seq lens (next_seq s))
-             (f_equal (seq (next_seq s)) (eq_sym (mk_batch_length lens (next_seq s))))) E)
+  destruct (sendmsgv_range fx _ _ _ _ _ (next_seq s) (eq_trans (mk_batch_seq addr lens (next_seq s))
+             (f_equal (seq (next_seq s)) (eq_sym (mk_batch_length addr lens (next_seq s))))) E)
     as (Hl1 & Hl2).
   rewrite mk_batch_length in Hl2.
   assert (Ha : hand_all (m_hand m) (handed ev) = Some (rev (handed ev) ++ m_hand m)).
@@ -1089,7 +1096,7 @@ Proof.
     intros. pose proof (i_hb _ _ HI). lia. }
   pose proof (mon_run_sys ev m _ Hsys Ha) as Hr.
   eexists. simpl snd. split.
-  - apply mon_run_snoc_ignored; [exact Hr|reflexivity].
+  - rewrite mon_run_cons_name. apply mon_run_snoc_ignored; [exact Hr|reflexivity].
   - simpl fst. eapply (Inv_ext_fresh s); eauto; simpl; auto; try lia.
     apply (Inv_empty s m HI). exact Hz.
 Qed.
@@ -1113,6 +1120,10 @@ Proof.
   - now apply udp_send_ok.
   - now apply udp_try_send_ok.
   - now apply udp_try_send2_ok.
+  - unfold udp_connect. destruct (connected s); exists m; simpl; (split; [reflexivity|]); auto.
+    eapply Inv_state; [exact HI| | | | | | | |]; simpl; auto.
+  - unfold udp_disconnect. destruct (connected s); exists m; simpl; (split; [reflexivity|]); auto.
+    eapply Inv_state; [exact HI| | | | | | | |]; simpl; auto.
   - unfold recv_start. destruct (pin s); exists m; simpl; (split; [reflexivity|]); auto.
     eapply Inv_state; [exact HI| | | | | | | |]; simpl; auto.
   - unfold recv_stop. exists m; simpl; (split; [reflexivity|]).
@@ -1948,7 +1959,7 @@ Proof.
   repeat split; simpl; auto. now rewrite forallb_app, Hs.
 Qed.
 
-Lemma udp_try_send2_keeps fx s lens flags : keeps s (udp_try_send2 fx s lens flags).
+Lemma udp_try_send2_keeps fx s lens flags addr : keeps s (udp_try_send2 fx s lens flags addr).
 Proof.
   unfold udp_try_send2. destruct (_ <? 1)%nat; [repeat split|].
   destruct (negb _); [repeat split|]. destruct (0 <? _); [repeat split|].
@@ -1967,6 +1978,8 @@ Proof.
   - apply K, udp_send_keeps.
   - apply K, udp_try_send_keeps.
   - apply K, udp_try_send2_keeps.
+  - unfold udp_connect. destruct (connected s); simpl; auto.
+  - unfold udp_disconnect. destruct (connected s); simpl; auto.
   - unfold recv_start. destruct (pin s); simpl; auto.
 Qed.
 
@@ -1984,6 +1997,8 @@ Proof.
   - apply K, udp_send_keeps.
   - apply K, udp_try_send_keeps.
   - apply K, udp_try_send2_keeps.
+  - unfold udp_connect. destruct (connected s); simpl; auto.
+  - unfold udp_disconnect. destruct (connected s); simpl; auto.
   - unfold recv_start. destruct (pin s); simpl; auto.
 Qed.
 
